@@ -228,8 +228,29 @@ def run_path(path, via, init='std'):
     return res
 
 
+NUMERIC_OVER_ALL = {'acf_sum_all': ['i', 'm'], 'acf_max_all': ['m', 'i']}
+
+
+def ill_typed(path, init):
+    """A numeric aggregate spread over every resource is only a well-typed request where the columns it names are numeric in
+    every resource that has them (an earlier step may have left a text column of that name, e.g. concatenate's default for a
+    target field no source provides)."""
+    for k, sym in enumerate(path):
+        if sym in NUMERIC_OVER_ALL:
+            before = run_path(path[:k], 'datastream', init)
+            if before[0] == 'exc':
+                return False
+            for r in before[1].desc['resources']:
+                for f in r['schema']['fields']:
+                    if f['name'] in NUMERIC_OVER_ALL[sym] and f['type'] not in ('integer', 'number'):
+                        return True
+    return False
+
+
 def check_path(path, init='std'):
     """Returns (violations[(oracle, what)], outcome, expandable)."""
+    if any(sym in NUMERIC_OVER_ALL for sym in path) and ill_typed(path, init):
+        return [], 'rejected', False
     res = run_path(path, 'datastream', init)
     if res[0] == 'exc':
         if len(path) == 1 and init == 'std':
